@@ -95,7 +95,7 @@ def required_counters(tier):
         "style.typeguard": 200,
         "style.beartype": 200,
         "style.manual": 200,
-        "sibling_structured.usable": 50,
+        "sibling_structured.usable": 50, "keypath.cases": 40, "toplevel_structured_checks_judged": 200,
         "sibling_structured.ambiguous": 30,
     }
 
@@ -303,9 +303,15 @@ def run_case(rec, rng, rngkey=None):
     T0 = LT.build(case["L"])
     for x in vals[:2]:
         try:
-            isinstance(x, jaxtyping.PyTree[T0, "T"])
-        except Exception:  # noqa
-            pass
+            top = isinstance(x, jaxtyping.PyTree[T0, "T"])
+        except Exception as e:  # noqa
+            top = classify(e)
+        # a tree that is fine on its own inside a context is fine outside one too (there every leaf check is
+        # stateless - more permissive, never an AnnotationError for a '?' axis inside ONE structured PyTree)
+        if "'W'" not in repr(case["L"]) and model(dict(case, plain=None), [x], ["T"]) == "ok":
+            rec.count("toplevel_structured_checks_judged")
+            if top is not True:
+                rec.violation("verdict", dict(desc, style="toplevel"), f"PyTree[{desc['L']}, 'T'] checked outside every context on a tree that the model accepts on its own: {top}", mechanism=f"toplevel-structured-check-{top}")
     try:
         isinstance(real.np_array((2,)), jaxtyping.Shaped[np.ndarray, "?n"])
         got_top = "ok"
@@ -340,15 +346,60 @@ def run_case(rec, rng, rngkey=None):
             rec.violation("misuse", {"form": name, "dims": Sn.dim_str, "tree": GT.describe(tree), "rngkey": rngkey}, f"'?' {name}: expected AnnotationError, got {got}", mechanism=f"misuse-{name}-{got}")
 
 
+def run_keypath_cases(rec):
+    """leaf POSITIONS are what '?' axes hang on, whatever the keys along the way look like: dictionaries whose key
+    paths read alike ('enc' -> 'w' and the single key 'enc/w', a list index and the key 'layers/0', keys that contain
+    spaces or brackets) still have distinct positions"""
+    import beartype
+    import typeguard
+
+    import jaxtyping
+    from jaxtyping import jaxtyped
+
+    A_ = lambda n: real.np_array((n,))
+    trees = {
+        "nested-vs-slash": lambda a, b: {"enc": {"w": A_(a)}, "enc/w": A_(b)},
+        "index-vs-slash": lambda a, b: {"layers": [A_(a)], "layers/0": A_(b)},
+        "dot": lambda a, b: {"a": {"b": A_(a)}, "a.b": A_(b)},
+        "brackets": lambda a, b: {"x": {"0": A_(a)}, "x['0']": A_(b), "x[0]": A_(a)},
+        "space": lambda a, b: {"p q": A_(a), "p": {"q": A_(b)}},
+        "tuple-vs-list": lambda a, b: ([A_(a)], (A_(b),)),
+    }
+    ann = jaxtyping.PyTree[jaxtyping.Shaped[np.ndarray, "?n"], "T"]
+    for cname, checker in (("typeguard", typeguard.typechecked), ("beartype", beartype.beartype)):
+        ns = {"T_t": ann}
+        real.exec_src("def f(t1: T_t, t2: T_t):\n    return 0\n", ns)
+        f = jaxtyped(typechecker=checker)(ns["f"])
+        for name, mk in trees.items():
+            for (a, b, a2, b2, want) in ((3, 4, 3, 4, "ok"), (3, 4, 3, 5, "reject"), (3, 3, 3, 3, "ok"), (2, 5, 4, 5, "reject")):
+                try:
+                    f(mk(a, b), mk(a2, b2))
+                    got = "ok"
+                except Exception as e:  # noqa
+                    got = classify(e)
+                rec.count("keypath.cases")
+                rec.case(("keypath", name, a, b, a2, b2, cname), True)
+                if got != want:
+                    rec.violation("verdict", {"keypath_case": name, "sizes": [a, b, a2, b2], "checker": cname}, f"trees {name} with '?n' sizes ({a},{b}) and ({a2},{b2}): {got}, expected {want}", mechanism="look-alike-key-paths-" + got)
+                    break
+
+
 def run_shard(rec, seed, shard, tier):
     warnings.filterwarnings("ignore")
     if shard.get("i", 1) % 2 == 1:
         real.hostile_prelude(rec)  # a past: nothing the check decides may depend on it
         real.toplevel_probes(rec, None, "after the hostile prelude")
     GT.ensure_registered()
+    if shard["i"] == 0:
+        run_keypath_cases(rec)
     for k in range(CASES[tier]):
         key = f"{seed}/C16/{shard['i']}/{k}"
-        run_case(rec, random.Random(key), rngkey=key)
+        try:
+            run_case(rec, random.Random(key), rngkey=key)
+        except RecursionError as e:
+            # (never seen on the unchanged tree) a check that recurses without end has no verdict at all
+            rec.violation("verdict", {"rngkey": key}, f"a generated case ended in RecursionError: {str(e)[:120]}", mechanism="check-recurses-without-end")
+            break
     rec.sample({"leaf_types": [LT.show(L) for L in LEAFTYPES]})
 
 
